@@ -560,6 +560,7 @@ class EnvCTM():
         -------
         proj: Peps structure loaded with CTM projectors related to all lattice site.
         """
+        opts_svd = dict(opts_svd)  # do not modify the dictionary provided by the caller
         if 'tol' not in opts_svd and 'tol_block' not in opts_svd:
             opts_svd['tol'] = 1e-14
 
@@ -1054,6 +1055,7 @@ def update_extended_2x2_projectors_(env, tl, tr, bl, br, move, opts_svd, **kwarg
     Intended for a hexagonal lattice embedded on a square lattice.
     """
     psi = env.psi
+    opts_svd = dict(opts_svd)  # "k_block" is set below; do not modify the dictionary provided by the caller
     use_qr = kwargs.get("use_qr", True)
     kwargs["profiling_mode"]= env.profiling_mode
     psh = env.proj
